@@ -98,7 +98,7 @@ def main():
     inplace_lib.install_profile()
     sched_lib.install()          # ... of the Scheduler / CascadeBuilder memory bookkeeping (design.d/SchedMem.md)
     serial_lib.install(every=4 if ck.thorough else 1)         # ... of npu_serialisation / allocate_tensors / the weight encoder (design.d/Serialise.md)
-    if sched_lib.replay(ck):
+    if sched_lib.replay(ck) or serial_lib.replay(ck):
         return
     ip_stub_stats = inplace_lib.stage(ck, [], prefix="inplace_stub_", compiled=False)     # function level first
     outs = pipe_common.run_corpus(ck, n, profiles=profiles, want={"out_model": True, "extra": serial_lib.extra_c12},
@@ -245,7 +245,7 @@ def main():
         sched_outs += sched_lib.stub_tusage(ck.rng, 2000 if ck.thorough else 200)
     sc_stats = sched_lib.stage(ck, outs + sched_outs)
     # generated tensors / subgraph descriptions through the real copy functions and the real serialiser (function level)
-    serial_stub = serial_lib.stub(ck.rng, 20000 if ck.thorough else 2000) if ck.replay_arg is None else []
+    serial_stub = serial_lib.stub(serial_lib.stub_rng(ck.seed), 20000 if ck.thorough else 2000) if ck.replay_arg is None else []
     se_stats = serial_lib.stage(ck, outs + sched_outs + serial_stub)
     ck.finish({
         **lr_stats,
@@ -264,7 +264,10 @@ def main():
                 "sched_model_requests = calls of the modelled scheduler functions (build_cascades, optimize_sub_schedule, "
                 "get_temporal_memory_usage, use_fast_storage_for_feature_maps, propose_operator_buffering, ...) on the compilations "
                 "of this check and of the cascade-heavy corpus harness/sched_nets.py; sched_spec_requests = Lean Spec verdicts on "
-                "the real values of those calls",
+                "the real values of those calls. serial_model_requests = one `serial` and one `reported` request per compilation that "
+                "reaches the serialiser (model of npu_serialisation.py / of the reported memory figures = real, digests of every placed "
+                "range of the constants tensor) + generated calls of the real copy functions / serialiser; serial_spec_requests = Lean "
+                "Spec verdicts on the constants tensor, scratch tensors and operand order of the output file and on the reported figures",
         "exhaustive": False,
     }, assumptions=["liveness is taken from the operator order of the output graph; an input dying at and an output born at the same "
                     "Ethos-U operator may share bytes (ordering inside the stream is C03's subject)",
@@ -272,7 +275,10 @@ def main():
                     "live ranges: time has the granularity of live_range.py (one index per scheduled operation outside a cascade, "
                     "per cascade, per CPU pass; two ticks each); ordering inside one operation or one cascade is C03/C10's subject",
                     "live ranges: tensor identities, equivalence ids and the access list of the lrspec request are read from Vela's "
-                    "own objects (high-level commands, cascaded passes) in the harness process"])
+                    "own objects (high-level commands, cascaded passes) in the harness process",
+                    "serialisation: the source constants are the streams captured when encode_weight_and_scale_tensor returned them and "
+                    "the values of the constant feature maps of Vela's graph; addresses and storage sizes are read from Vela's tensors; "
+                    "the memory tensors of the output file are identified by their name suffix"])
 
 
 main_wrapper(main)
